@@ -664,7 +664,7 @@ class Exec:
             if isinstance(cell, PyList):
                 entry.heap[cid] = self.list_to_ragged(cell, entry)
         # initiation (after lists that grow in the loop were given their symbolic representation)
-        self.oblige_all('inv%d.init' % ordinal, entry, inv(self.c, View(self.c, entry.env, entry.heap), v0, lo_t), node)
+        self.oblige_all('inv%d.init' % ordinal, entry, inv(self.c, View(self.c, entry.env, entry.heap, entry.trace), v0, lo_t), node)
 
         def havoc(base):
             s = base.fork()
@@ -712,7 +712,7 @@ class Exec:
         for s2, kind, p in self.exec_block(node.body, body_st):
             if kind in ('next', 'continue'):
                 self.oblige_all('inv%d.preserve' % ordinal, s2,
-                                inv(self.c, View(self.c, s2.env, s2.heap), v0, k + 1), node)
+                                inv(self.c, View(self.c, s2.env, s2.heap, s2.trace), v0, k + 1), node)
             elif kind == 'break':
                 s2.env['loop%d_exit' % ordinal] = k          # ghost: iteration at which the loop was left
                 outs.append((s2, 'next', None))
@@ -739,7 +739,7 @@ class Exec:
         """the invariant as a hypothesis: ForallH clauses become real universal statements"""
         self.c.assuming = True
         try:
-            return _named(inv(self.c, View(self.c, st.env, st.heap), v0, k))
+            return _named(inv(self.c, View(self.c, st.env, st.heap, st.trace), v0, k))
         finally:
             self.c.assuming = False
 
@@ -760,7 +760,7 @@ class Exec:
                 raise Unsupported('while loop %d at line %d needs an invariant' % (ordinal, node.lineno))
             entry = st
             v0 = self.unit._view0
-            self.oblige_all('inv%d.init' % ordinal, entry, inv(self.c, View(self.c, entry.env, entry.heap), v0, None), node)
+            self.oblige_all('inv%d.init' % ordinal, entry, inv(self.c, View(self.c, entry.env, entry.heap, entry.trace), v0, None), node)
             mod_names, mod_cells, mod_attrs = self.modified(node.body, entry, node)
 
             def havoc(base):
@@ -785,7 +785,7 @@ class Exec:
             for s2, kind, p in self.exec_block(node.body, body_st):
                 if kind in ('next', 'continue'):
                     self.oblige_all('inv%d.preserve' % ordinal, s2,
-                                    inv(self.c, View(self.c, s2.env, s2.heap), v0, None), node)
+                                    inv(self.c, View(self.c, s2.env, s2.heap, s2.trace), v0, None), node)
                     if variant:
                         v_after = variant(self.c, View(self.c, s2.env, s2.heap))
                         self.oblige('inv%d.variant' % ordinal, s2, z3.And(v_after < v_before, v_before >= 0), node)
@@ -1360,7 +1360,7 @@ class Exec:
             del self.obls[snapshot_obls[0]:]
             self.counts = snapshot_obls[1]
         vals = []
-        pushed = 0
+        pushed = []
         try:
             for e in node.values:
                 v = self.eval(e, st)
@@ -1370,18 +1370,25 @@ class Exec:
                         return False if len(vals) == 0 or all(x is True for x in vals) else self.c.And(*vals, False)
                     vals.append(t)
                     if t is not True:
-                        st.pc.append(t)
-                        pushed += 1
+                        g = t if is_sym(t) else as_term(t)
+                        st.pc.append(g)
+                        pushed.append(g)
                 else:
                     if t is True:
                         return True if all(x is False for x in vals) else self.c.Or(*vals, True)
                     vals.append(t)
                     if t is not False:
-                        st.pc.append(z3.Not(t))
-                        pushed += 1
+                        g = z3.Not(t)
+                        st.pc.append(g)
+                        pushed.append(g)
         finally:
-            for _ in range(pushed):
-                st.pc.pop()
+            # remove exactly the short-circuit guards (a later operand may have appended definitional facts of library
+            # models after them: those stay, the guards go)
+            for g in pushed:
+                for k in range(len(st.pc) - 1, -1, -1):
+                    if st.pc[k] is g:
+                        del st.pc[k]
+                        break
         # note: value semantics of `a or b` on non-bools is not modelled (truth only)
         return self.c.And(*vals) if isinstance(node.op, ast.And) else self.c.Or(*vals)
 
